@@ -108,6 +108,10 @@ Definition make_pat_wildcard (arm : string * shape * list fld) : toks :=
   q "Self ::" ++ [TI v] ++
   match sh with ShNamed => q "{ .. }" | ShUnnamed => q "( .. )" | ShUnit => [] end.
 
+(** `match self` — or `match *self` for an enum without variants *)
+Definition match_self {A} (vs : list A) : toks :=
+  match vs with [] => q "match * self" | _ => q "match self" end.
+
 Definition r_clone_enum (vs : list (string * shape * list fld)) : toks :=
   let arm_clone arm :=
     let '(v, sh, fs) := arm in
@@ -122,7 +126,7 @@ Definition r_clone_enum (vs : list (string * shape * list fld)) : toks :=
                                [[TI (make_ident "l" (fl_member f))];
                                 [TI (make_ident "r" (fl_member f))]]) fs)) in
   q "fn clone ( & self ) -> Self" ++
-  tbrace (q "match self" ++ tbrace (term_by comma (map arm_clone vs))) ++
+  tbrace (match_self vs ++ tbrace (term_by comma (map arm_clone vs))) ++
   q "fn clone_from ( & mut self , source : & Self )" ++
   tbrace (q "match ( self , source )" ++
           tbrace (term_by comma (map arm_clone_from vs) ++
@@ -134,11 +138,15 @@ Definition r_debug_expr (d : debug_body) (place : fld -> toks) : toks :=
   | DbgFields name sh fs =>
       let named := match sh with ShNamed => true | _ => false end in
       q "f ." ++ [TI (if named then "debug_struct" else "debug_tuple")] ++
-      tparen (q ":: core :: stringify !" ++ tparen [TI name]) ++
+      tparen (q ":: core :: stringify !" ++ tparen [TI (unraw name)]) ++
       concat (map (fun f =>
                      q ". field" ++
                      tparen ((if named
-                              then q ":: core :: stringify !" ++ tparen (r_member (fl_member f)) ++ comma
+                              then q ":: core :: stringify !" ++
+                                   tparen (match fl_member f with
+                                           | MNamed s => [TI (unraw s)]
+                                           | m => r_member m
+                                           end) ++ comma
                               else []) ++ place f)) fs) ++
       q ". finish ( )"
   end.
@@ -360,7 +368,7 @@ Definition r_body (h : impl_hdr) (b : body) : toks :=
       fmt_sig ++ tbrace (r_debug_expr d (fun f => q "& self ." ++ r_member (fl_member f)))
   | BDebugEnum vs =>
       fmt_sig ++
-      tbrace (q "match self" ++
+      tbrace (match_self vs ++
               tbrace (term_by comma
                         (map (fun x => make_pat [TI "Self"] "" (arm_of x) ++ [TP "=>"] ++
                                        r_debug_expr (snd x) (fun f => [TI (make_ident "" (fl_member f))]))
